@@ -31,10 +31,29 @@ func DeepCopy(node Node, document *Document) Node {
 		return nil
 	}
 
+	// A husband, wife or child that is copied on its own stays in its family.
+	var family *FamilyNode
+	switch n := node.(type) {
+	case *HusbandNode:
+		family = n.Family()
+	case *WifeNode:
+		family = n.Family()
+	case *ChildNode:
+		family = n.Family()
+	}
+
+	return deepCopyInFamily(node, document, family)
+}
+
+// deepCopyInFamily is DeepCopy for a node that will be placed in family (which
+// may be nil when the node is not a husband, wife or child).
+func deepCopyInFamily(node Node, document *Document, family *FamilyNode) Node {
+	if IsNil(node) {
+		return nil
+	}
+
 	// We must track the last family seen for nodes that require a family. For
 	// example, husband, wife and child nodes.
-	var family *FamilyNode
-
 	return Filter(node, document, func(node Node) (newNode Node, traverseChildren bool) {
 		if fam, ok := node.(*FamilyNode); ok {
 			family = fam
